@@ -102,10 +102,13 @@ impl impl_details::CacheImplDetails for MemoryStore {
         if record.header.timestamp + (record.header.time_to_live as u64) > current_time {
             return false;
         }
-        match self.remove(key) {
-            Some(_) => true,
-            None => true,
-        }
+        // remove only what is still expired: a concurrent store may have replaced the
+        // record this decision was taken on
+        self.memory.remove_if(key, |_key, stored| {
+            stored.header.time_to_live != 0
+                && stored.header.timestamp + (stored.header.time_to_live as u64) <= current_time
+        });
+        true
     }
 }
 
